@@ -30,6 +30,11 @@ func vpC09Refl(ti int) {
 	vpAssert("reflexive/"+cell, ItemsEqual(x, x))
 	c := vpCloneItem(x)
 	vpAssert("copy-equal/"+cell, ItemsEqual(x, c) && ItemsEqual(c, x))
+	// the value (non-pointer) form of the same value: equal to itself and to the pointer form, in both orders
+	if v := vpValueOf(x); v != x {
+		vpAssert("value-form-reflexive/"+cell, ItemsEqual(v, v))
+		vpAssert("value-form-equals-pointer-form/"+cell, ItemsEqual(v, x) && ItemsEqual(x, v))
+	}
 	vpReach("end")
 }
 
@@ -37,6 +42,20 @@ func vpH_C09_refl_Object()   { vpC09Refl(vpTypeIndex("Object")) }
 func vpH_C09_refl_Actor()    { vpC09Refl(vpTypeIndex("Actor")) }
 func vpH_C09_refl_Activity() { vpC09Refl(vpTypeIndex("Activity")) }
 func vpH_C09_refl_Link()     { vpC09Refl(vpTypeIndex("Link")) }
+
+// id and type only, every type (the value forms of the less common types are dispatched separately)
+func vpH_C09_refl_bare_all() {
+	ti := vpChoice(len(vpTypeNames))
+	x := vpNew(ti)
+	vpSetField(x, 0, 0, 'i')
+	cell := vpTypeNames[ti]
+	vpAssert("bare/reflexive/"+cell, ItemsEqual(x, x))
+	if v := vpValueOf(x); v != x {
+		vpAssert("bare/value-form-reflexive/"+cell, ItemsEqual(v, v))
+		vpAssert("bare/value-form-equals-pointer-form/"+cell, ItemsEqual(v, x) && ItemsEqual(x, v))
+	}
+	vpReach("end")
+}
 func vpT_C09_refl_all()      { vpC09Refl(vpChoice(len(vpTypeNames))) }
 
 // items that are not vocabulary structs
